@@ -4,6 +4,7 @@ package stream
 
 import (
 	"bytes"
+	"compress/gzip"
 	"context"
 	"fmt"
 	"io"
@@ -50,7 +51,35 @@ func c01RandString(r *rand.Rand, n int) string {
 	return string(out)
 }
 
+// c01GzipBody returns a body that is itself a complete, valid gzip stream (what a peer
+// relays when the application payload is a .gz file or an HTTP body with
+// Content-Encoding: gzip). Sent with compression off it must come back byte-identical;
+// sent with compression on it is compressed once more and must still come back identical.
+func c01GzipBody(r *rand.Rand, n int) []byte {
+	var buf bytes.Buffer
+	zw := gzip.NewWriter(&buf)
+	inner := make([]byte, n)
+	if r.Intn(2) == 0 {
+		r.Read(inner)
+	}
+	zw.Write(inner)
+	zw.Close()
+	return buf.Bytes()
+}
+
 func c01Body(r *rand.Rand, n int) []byte {
+	if r.Intn(9) == 0 {
+		switch r.Intn(4) {
+		case 0:
+			return c01GzipBody(r, n)
+		case 1: // gzip magic only, not a valid stream
+			return append([]byte{0x1f, 0x8b, 0x08}, make([]byte, n)...)
+		case 2: // valid gzip stream followed by trailing bytes
+			return append(c01GzipBody(r, n), 1, 2, 3)
+		default: // two concatenated gzip members
+			return append(c01GzipBody(r, n), c01GzipBody(r, n/2)...)
+		}
+	}
 	b := make([]byte, n)
 	switch r.Intn(3) {
 	case 0:
